@@ -112,15 +112,30 @@ class ScopeGen:
                 out.append("in")
             elif r < 0.85 and self.allow_with:
                 rr = rng.random()
+
+                def env_members():
+                    # members of an environment: literals, and references to the other names (in a plain set they
+                    # mean the surroundings of the place where the set is *written*, in a `rec` set its own members)
+                    ms = []
+                    for n in NAMES:
+                        if rng.random() < 0.6:
+                            ms.append("%s = %s;" % (n, self.lit() if rng.random() < 0.7 else rng.choice([x for x in NAMES if x != n])))
+                    return " ".join(ms) or ("k%d = %s;" % (self.k + 1, self.lit()))
+
+                rec_env = "rec " if rng.random() < 0.3 else ""
                 if rr < 0.55:
-                    inner = " ".join("%s = %s;" % (n, self.lit()) for n in NAMES if rng.random() < 0.6) or ("k%d = %s;" % (self.k + 1, self.lit()))
-                    out.append("with { %s };" % inner)
+                    out.append("with %s{ %s };" % (rec_env, env_members()))
                 elif rr < 0.8:
                     name = "e%d" % (self.k + 1)
-                    inner = " ".join("%s = %s;" % (n, self.lit()) for n in NAMES if rng.random() < 0.6) or ("k%d = %s;" % (self.k + 1, self.lit()))
                     out.append("let")
-                    out.append("  %s = { %s };" % (name, inner))
+                    out.append("  %s = %s{ %s };" % (name, rec_env, env_members()))
                     out.append("in")
+                    if rng.random() < 0.5:
+                        # a layer between the place where the environment is written and the `with` that uses it
+                        shadow = self.binder_lines("  ", in_set=False) or ["  k%d = %s;" % (self.k + 1, self.lit())]
+                        out.append("let")
+                        out.extend(shadow)
+                        out.append("in")
                     out.append("with %s;" % name)
                 else:
                     out.append("with lib;")
